@@ -287,6 +287,16 @@ const TEMPLATES: &[Template] = &[
     t("nonlast-constants", "{0}; t(1, 5); {1}; r := {0} OP {1}; return (r, *log)", &["int", "int"]),
     t("tuple-then-access", "p := ({0}, t(2, {1})); return (p.0 OP p.1, *log)", &["int", "int"]),
     t("destructure", "(a, b) := ({0}, {1}); return (a OP b, *log)", &["int", "int"]),
+    // names bound by every declaration form inside a block are gone after it, for the folder too
+    t("destructure-in-block", "a := {0}; r := { (a, z) := ({1}, 5); a OP z }; return (a, r, *log)", &["int", "int"]),
+    t("destructure-in-branch", "a := {0}; if tb(1, true) { (a, z) := ({1}, 5); log += [a OP z] }; return (a, *log)", &["int", "int"]),
+    t("destructure-in-loop", "a := {0}; n := mut 0; while *n < 2 { n += 1; (a, z) := ({1}, 5); log += [a OP z] }; return (a, *log)", &["int", "int"]),
+    t("declare-in-block", "a := {0}; r := { a := {1}; a OP 5 }; return (a, r, *log)", &["int", "int"]),
+    t("function-in-block", "a := {0}; r := { a := () -> int { return {1} }; a() OP 5 }; return (a, r, *log)", &["int", "int"]),
+    t("for-binder", "a := {0}; for a in [{1}, 5]~ { log += [a OP 5] }; return (a, *log)", &["int", "int"]),
+    t("match-binder", "a := {0}; r := match {1} { a: int => a OP 5, => 0, }; return (a, r, *log)", &["int", "int"]),
+    t("if-set-binder", "a := {0}; r := if a: int = {1} { a OP 5 } else { 0 }; return (a, r, *log)", &["int", "int"]),
+    t("parameter-binder", "a := {0}; g := (a: int) -> any { return a OP 5 }; return (a, g({1}), *log)", &["int", "int"]),
     t("struct-field", "s := struct{ a := {0}, b := t(2, {1}) }; return (s.a OP s.b, *log)", &["int", "int"]),
     t("cell-compound", "c := mut {0}; c OP= {1}; return (*c, *log)", &["int", "int"]),
     t("array-index", "a := [{0}, t(2, {1}), 7]; return (a[{2}], *log)", &["int", "int", "idx"]),
